@@ -37,6 +37,8 @@ pub fn lock_file_name(f: &str) -> String {
 pub struct Decision {
     pub proc: usize,
     pub kill: bool,
+    /// errno injected into this call (only ever EAGAIN on the spawn of `ps`); 0 = none
+    pub fail: i32,
 }
 
 #[derive(Clone, Debug)]
@@ -44,6 +46,7 @@ pub struct Step {
     pub seq: usize,
     pub proc: usize,
     pub kill: bool,
+    pub fail: i32,
     pub req: String, // "k cls call arg len=…" with the scratch dir replaced by $H
 }
 
@@ -66,6 +69,7 @@ struct Proc {
     alive: bool,
     parked_done: bool,
     exited: bool,
+    faulted: bool,
 }
 
 fn recv_req(sock: RawFd) -> Option<String> {
@@ -108,6 +112,8 @@ pub enum Policy {
 
 #[derive(Clone, Debug)]
 pub struct KillPlan {
+    /// true: do not kill, make the matching `spawn ps` fail with EAGAIN instead
+    pub spawn_fail: bool,
     pub victim: usize,
     /// kill when the victim's pending request contains this text (empty = any) …
     pub at_call: String,
@@ -160,7 +166,7 @@ pub fn run_once(w: &Workload, slot: &Path, mut sched: Sched) -> RunResult {
         c.stdin(Stdio::null()).stdout(Stdio::null()).stderr(Stdio::null());
         let child = c.spawn().unwrap_or_else(|e| harness_error(&format!("cannot spawn flagdrv: {e}")));
         unsafe { libc::close(fds[1]) };
-        procs.push(Proc { child, sock: fds[0], pending: None, alive: true, parked_done: false, exited: false });
+        procs.push(Proc { child, sock: fds[0], pending: None, alive: true, parked_done: false, exited: false, faulted: false });
     }
     write_live(&procs);
     let fetch = |p: &mut Proc| {
@@ -199,14 +205,14 @@ pub fn run_once(w: &Workload, slot: &Path, mut sched: Sched) -> RunResult {
                 _ => enabled[0],
             }
         };
-        let (pi, kill) = match &mut sched {
+        let (pi, kill, fail) = match &mut sched {
             Sched::Forced { list, pos, tolerant } => {
                 let mut out = None;
                 while *pos < list.len() {
                     let d = &list[*pos];
                     *pos += 1;
                     if enabled.contains(&d.proc) {
-                        out = Some((d.proc, d.kill));
+                        out = Some((d.proc, d.kill, d.fail));
                         break;
                     } else if !*tolerant {
                         res.infeasible = true;
@@ -220,7 +226,7 @@ pub fn run_once(w: &Workload, slot: &Path, mut sched: Sched) -> RunResult {
                     Some(x) => x,
                     None => {
                         if *tolerant {
-                            (default_choice(current), false)
+                            (default_choice(current), false, 0)
                         } else {
                             break; // strict list exhausted: stop here (the recorded run ended here too)
                         }
@@ -261,21 +267,28 @@ pub fn run_once(w: &Workload, slot: &Path, mut sched: Sched) -> RunResult {
                 };
                 let req = procs[pi].pending.as_deref().unwrap_or("");
                 let mut kill = false;
+                let mut fail = 0;
                 for k in kills.iter_mut() {
                     if !k.done && k.victim == pi && (k.at_call.is_empty() || req.contains(&k.at_call)) && !req.contains(" mark ") {
                         k.seen += 1;
                         if k.seen >= k.nth {
                             k.done = true;
-                            kill = true;
+                            if k.spawn_fail {
+                                fail = libc::EAGAIN;
+                            } else {
+                                kill = true;
+                            }
                         }
                     }
                 }
-                (pi, kill)
+                (pi, kill, fail)
             }
         };
         let req = procs[pi].pending.take().unwrap();
-        res.steps.push(Step { seq: res.steps.len(), proc: pi, kill, req: req.replace(&slot_s, "$H") });
-        res.decisions.push(Decision { proc: pi, kill });
+        // an errno can only be injected into the spawn of the liveness helper
+        let fail = if req.contains(" spawn ps") { fail } else { 0 };
+        res.steps.push(Step { seq: res.steps.len(), proc: pi, kill, fail, req: req.replace(&slot_s, "$H") });
+        res.decisions.push(Decision { proc: pi, kill, fail });
         // burst policy bookkeeping
         if let Sched::Seeded { rng, policy: Policy::SwitchAfter(text), .. } = &mut sched {
             if burst_target.is_none() && req.contains(text.as_str()) {
@@ -290,7 +303,10 @@ pub fn run_once(w: &Workload, slot: &Path, mut sched: Sched) -> RunResult {
         }
         current = Some(pi);
         let p = &mut procs[pi];
-        let msg: &[u8] = if kill { b"K" } else { b"G" };
+        let msg: Vec<u8> = if kill { b"K".to_vec() } else if fail != 0 { format!("F {fail}").into_bytes() } else { b"G".to_vec() };
+        if fail != 0 {
+            p.faulted = true;
+        }
         unsafe { libc::send(p.sock, msg.as_ptr() as *const _, msg.len(), libc::MSG_NOSIGNAL) };
         if kill {
             let _ = p.child.wait();
@@ -299,6 +315,13 @@ pub fn run_once(w: &Workload, slot: &Path, mut sched: Sched) -> RunResult {
             write_live(&procs);
         } else {
             fetch(p);
+            // a process that terminates by itself after an injected failure has crashed (the unchanged code
+            // panics when `ps` cannot be spawned): from here on it is a dead process, not a misbehaving one
+            if p.exited && p.faulted && p.alive {
+                let _ = p.child.wait();
+                p.alive = false;
+                write_live(&procs);
+            }
         }
     }
     // quiescence: fresh observer, unscheduled; holders stay parked (alive) meanwhile
@@ -388,7 +411,14 @@ pub fn ops_of(r: &RunResult) -> Vec<Op> {
 }
 
 fn kill_seq(r: &RunResult, proc: usize) -> Option<usize> {
-    r.steps.iter().find(|s| s.proc == proc && s.kill).map(|s| s.seq)
+    if let Some(k) = r.steps.iter().find(|s| s.proc == proc && s.kill).map(|s| s.seq) {
+        return Some(k);
+    }
+    // died by itself after an injected spawn failure: dead from its last step on
+    if !r.alive.get(proc).copied().unwrap_or(true) {
+        return r.steps.iter().rev().find(|s| s.proc == proc).map(|s| s.seq);
+    }
+    None
 }
 
 /// Holder intervals: (proc, file, from = seq at which a successful mark returned, until = seq at which a
@@ -496,6 +526,9 @@ pub fn signature(r: &RunResult) -> Vec<String> {
     if r.steps.iter().any(|s| s.kill) {
         sig.insert("kill".into());
     }
+    if r.steps.iter().any(|s| s.fail != 0) {
+        sig.insert("ps-spawn-failed".into());
+    }
     if r.had_initial {
         sig.insert("initial-stale-flag".into());
     }
@@ -589,7 +622,11 @@ pub fn gen_sched(rng: &mut Rng, nproc: usize, with_kills: bool) -> (Policy, Vec<
         };
         for _ in 0..n {
             let at = *rng.pick(&["", "", " M write ", " open TRUNC ", " spawn ps", " unlink ", " fsync ", " R read ", " mark end"]);
-            kills.push(KillPlan { victim: rng.below(nproc), at_call: at.to_string(), nth: rng.range(1, if at.is_empty() { 25 } else { 3 }), seen: 0, done: false });
+            if rng.chance(1, 4) {
+                kills.push(KillPlan { spawn_fail: true, victim: rng.below(nproc), at_call: " spawn ps".to_string(), nth: rng.range(1, 3), seen: 0, done: false });
+            } else {
+                kills.push(KillPlan { spawn_fail: false, victim: rng.below(nproc), at_call: at.to_string(), nth: rng.range(1, if at.is_empty() { 25 } else { 3 }), seen: 0, done: false });
+            }
         }
     }
     (policy, kills, name)
@@ -640,9 +677,10 @@ pub fn minimise(w: &Workload, r: &RunResult, clause: &str, slot: &Path) -> (Work
     }
     // 3. drop kills that are not needed
     for i in 0..best.decisions.len() {
-        if best.decisions[i].kill {
+        if best.decisions[i].kill || best.decisions[i].fail != 0 {
             let mut d2 = best.decisions.clone();
             d2[i].kill = false;
+            d2[i].fail = 0;
             if let Some(r2) = violates(&w, &d2, slot, clause) {
                 best = r2;
             }
@@ -659,8 +697,8 @@ pub fn minimise(w: &Workload, r: &RunResult, clause: &str, slot: &Path) -> (Work
 fn replay_json(w: &Workload, r: &RunResult, seed_info: Value) -> Value {
     json!({
         "workload": w.scripts, "initial_lock_files": w.initial,
-        "decisions": r.decisions.iter().map(|d| json!([d.proc, if d.kill { "K" } else { "G" }])).collect::<Vec<_>>(),
-        "history": r.steps.iter().map(|s| format!("{} p{} {} {}", s.seq, s.proc, if s.kill { "KILL" } else { "go" }, s.req)).collect::<Vec<_>>(),
+        "decisions": r.decisions.iter().map(|d| json!([d.proc, if d.kill { "K".to_string() } else if d.fail != 0 { format!("F{}", d.fail) } else { "G".to_string() }])).collect::<Vec<_>>(),
+        "history": r.steps.iter().map(|s| format!("{} p{} {} {}", s.seq, s.proc, if s.kill { "KILL".to_string() } else if s.fail != 0 { format!("FAIL(errno {})", s.fail) } else { "go".to_string() }, s.req)).collect::<Vec<_>>(),
         "observer": r.observer, "alive": r.alive, "origin": seed_info,
         "history_hash": format!("{:016x}", history_hash(r)),
     })
@@ -669,7 +707,7 @@ fn replay_json(w: &Workload, r: &RunResult, seed_info: Value) -> Value {
 pub fn history_hash(r: &RunResult) -> u64 {
     let mut s = String::new();
     for st in &r.steps {
-        s.push_str(&format!("{} {} {} {}\n", st.seq, st.proc, st.kill, st.req));
+        s.push_str(&format!("{} {} {} {} {}\n", st.seq, st.proc, st.kill, st.fail, st.req));
     }
     s.push_str(&format!("{:?} {:?}", r.observer, r.alive));
     fnv64(s.as_bytes())
@@ -681,7 +719,7 @@ fn interleaving_hash(r: &RunResult) -> u64 {
     for st in &r.steps {
         let mut it = st.req.split(' ');
         let (_k, _c, call, a1) = (it.next(), it.next(), it.next().unwrap_or(""), it.next().unwrap_or(""));
-        s.push_str(&format!("{}{}{}{};", st.proc, if st.kill { "!" } else { "" }, call, if call == "open" || call == "mark" { a1 } else { "" }));
+        s.push_str(&format!("{}{}{}{};", st.proc, if st.kill { "!" } else if st.fail != 0 { "?" } else { "" }, call, if call == "open" || call == "mark" { a1 } else { "" }));
     }
     fnv64(s.as_bytes())
 }
@@ -719,6 +757,7 @@ pub fn main(cli: &Cli) -> i32 {
     let mut hashes: BTreeSet<u64> = BTreeSet::new();
     let mut steps_total = 0usize;
     let mut kills_fired = 0usize;
+    let mut spawn_fails_fired = 0usize;
     let mut probes: BTreeMap<String, usize> = BTreeMap::new();
     let mut policies: BTreeMap<String, usize> = BTreeMap::new();
     let mut samples: Vec<Value> = vec![];
@@ -744,6 +783,7 @@ pub fn main(cli: &Cli) -> i32 {
             hashes.insert(interleaving_hash(&r));
             steps_total += r.steps.len();
             kills_fired += r.steps.iter().filter(|s| s.kill).count();
+            spawn_fails_fired += r.steps.iter().filter(|s| s.fail != 0).count();
             *policies.entry(pname.split('[').next().unwrap().to_string()).or_insert(0) += 1;
             for s in signature(&r) {
                 *probes.entry(s).or_insert(0) += 1;
@@ -795,7 +835,7 @@ pub fn main(cli: &Cli) -> i32 {
     ev.set("distinct_nontrivial", json!(hashes.len()));
     ev.set("rule", json!("one evaluation = one simulated run: 2-3 real processes with seeded scripts of mark/clear/check/cleanup operations on 1-2 files, every libc file-system call of every process granted one at a time by a seeded scheduler (uniform / sticky / switch-after-<call> bursts / PCT), odd-numbered runs with 0-2 SIGKILLs; distinct+non-trivial = distinct abstract interleavings, i.e. distinct sequences of (process, call kind, operation boundary, kill)"));
     ev.set("scheduling_steps_total", json!(steps_total));
-    ev.set("faults_fired", json!({"SIGKILL": kills_fired}));
+    ev.set("faults_fired", json!({"SIGKILL": kills_fired, "EAGAIN on the spawn of ps (the process may crash: the unchanged code panics)": spawn_fails_fired}));
     ev.set("policies", json!(policies));
     ev.set("probes", json!(probes));
     ev.set("violating_runs_by_raw_class", json!(classes_seen));
@@ -814,7 +854,7 @@ fn replay(path: &str, base: &PathBuf) -> i32 {
     let txt = std::fs::read_to_string(path).unwrap_or_else(|e| harness_error(&format!("cannot read replay {path}: {e}")));
     let v: Value = serde_json::from_str(&txt).unwrap_or_else(|e| harness_error(&format!("bad replay json: {e}")));
     let scripts: Vec<Vec<String>> = serde_json::from_value(v["workload"].clone()).unwrap_or_else(|_| harness_error("replay: bad workload"));
-    let decisions: Vec<Decision> = v["decisions"].as_array().cloned().unwrap_or_default().iter().map(|d| Decision { proc: d[0].as_u64().unwrap_or(0) as usize, kill: d[1].as_str() == Some("K") }).collect();
+    let decisions: Vec<Decision> = v["decisions"].as_array().cloned().unwrap_or_default().iter().map(|d| Decision { proc: d[0].as_u64().unwrap_or(0) as usize, kill: d[1].as_str() == Some("K"), fail: d[1].as_str().and_then(|s| s.strip_prefix('F')).and_then(|n| n.parse().ok()).unwrap_or(0) }).collect();
     let initial: Vec<(String, String)> = serde_json::from_value(v["initial_lock_files"].clone()).unwrap_or_default();
     let w = Workload { scripts, initial };
     let r = run_once(&w, &base.join("replay"), Sched::Forced { list: &decisions, pos: 0, tolerant: false });
@@ -823,7 +863,7 @@ fn replay(path: &str, base: &PathBuf) -> i32 {
         harness_error("replay: a forced decision was infeasible (the code under test no longer follows this schedule)");
     }
     for s in &r.steps {
-        println!("{} p{} {} {}", s.seq, s.proc, if s.kill { "KILL" } else { "go" }, s.req);
+        println!("{} p{} {} {}", s.seq, s.proc, if s.kill { "KILL".to_string() } else if s.fail != 0 { format!("FAIL({})", s.fail) } else { "go".to_string() }, s.req);
     }
     println!("observer: {:?}", r.observer);
     let want = v["clause"].as_str().unwrap_or("");
